@@ -334,10 +334,22 @@ class Sys:
         for k in SINGLE:
             out.append(("query", 0) + k)
         out.append(("flag", not w.flag))
+        out.append(("rejected_searches",))
         return out
 
     def apply(self, w, op):
         Vertex.NEIGHBOR_CACHING = w.flag
+        if op[0] == "rejected_searches":
+            # read-only calls that are rejected: every search from a vertex outside the universe and on an
+            # empty universe (documented ValueError / None).  Whatever they leave behind is state.
+            from edgegraph.traversal import breadthfirst, depthfirst
+            for fn in (breadthfirst.bfs, depthfirst.dfs_recursive, depthfirst.dfs_iterative):
+                for uni, start in ((w.u[0], Vertex(attributes={"i": 77})), (Universe(), w.v[0])):
+                    try:
+                        fn(uni, start, "i", 0)
+                    except Exception:  # noqa: BLE001
+                        pass
+            return ("ret", None)
         if op[0] == "query":
             try:
                 helpers.neighbors(w.v[op[1]], DIRS[op[2]], UNKS[op[3]], NB_FILTERS[op[4]])
